@@ -255,4 +255,617 @@ theorem cliRxLoop_whole_complete (env : List RecvRes) : ∀ (received : Bool) (s
       · simp [parseOnce, parse]
     | fail => simp [RecvRes.noFail] at hnf
 
+
+/-! ### client: the queue drains when the socket accepts -/
+
+theorem cliSendTxbs_acc_full (k : Nat) (s : Cli) (h : s.txbs.length ≤ k) :
+    cliSendTxbs (.acc k) s =
+      ({ s with cutoff := s.cutoff || false, wire := s.wire ++ s.txbs, txbs := [] }, true, false) := by
+  unfold cliSendTxbs
+  have h1 : min k s.txbs.length = s.txbs.length := by omega
+  simp [tSend, h1]
+
+theorem cliTxLoop_drains (K : Nat) (q : List Bytes) : ∀ (env : List SendRes) (s : Cli),
+    s.txbs = [] → s.connected = true → s.cutoff = false → (∀ r ∈ env, ∃ k, r = SendRes.acc k ∧ K ≤ k) →
+    q.length ≤ env.length → (∀ p ∈ q, p.length ≤ K) →
+    (cliTxLoop q env s).1.txbs = [] ∧ (cliTxLoop q env s).1.txPkts = [] ∧ (cliTxLoop q env s).2 = false ∧
+    (cliTxLoop q env s).1.wire = s.wire ++ flat q ∧ (cliTxLoop q env s).1.cutoff = false := by
+  induction q with
+  | nil =>
+    intro env s hb _ hx _ _ _
+    simp [cliTxLoop, hb, flat, hx]
+  | cons p rest ih =>
+    intro env s hb hc hx henv hlen hK
+    cases env with
+    | nil => simp at hlen
+    | cons r env' =>
+      obtain ⟨k, rfl, hk⟩ := henv r (by simp)
+      have hp : p.length ≤ k := Nat.le_trans (hK p (by simp)) hk
+      have hcond : (s.connected && !s.cutoff) = true := by simp [hc, hx]
+      unfold cliTxLoop
+      rw [if_pos hcond]
+      simp only [nextSend]
+      rw [cliSendTxbs_acc_full k { s with txbs := p } hp]
+      simp only
+      obtain ⟨i1, i2, i3, i4, i5⟩ := ih env'
+        { s with txbs := [], cutoff := s.cutoff || false, wire := s.wire ++ p } rfl hc (by simp [hx])
+        (fun r hr => henv r (List.mem_cons_of_mem _ hr)) (by simpa using hlen)
+        (fun x hx' => hK x (List.mem_cons_of_mem _ hx'))
+      refine ⟨i1, i2, i3, ?_, i5⟩
+      rw [i4]; simp [flat, List.append_assoc]
+
+/-- **repaired loop guard**: whatever is pending — leftover bytes of a partially sent packet and queued
+packets — goes out when the socket accepts -/
+theorem cliServiceTxPkts_drains (K : Nat) (s : Cli) (env : List SendRes)
+    (hc : s.connected = true) (hx : s.cutoff = false)
+    (henv : ∀ r ∈ env, ∃ k, r = SendRes.acc k ∧ K ≤ k) (hlen : s.txPkts.length + 1 ≤ env.length)
+    (hb : s.txbs.length ≤ K) (hK : ∀ p ∈ s.txPkts, p.length ≤ K) :
+    (cliServiceTxPkts .repaired s env).1.txbs = [] ∧ (cliServiceTxPkts .repaired s env).1.txPkts = [] ∧
+    (cliServiceTxPkts .repaired s env).1.wire = s.wire ++ s.txbs ++ flat s.txPkts := by
+  unfold cliServiceTxPkts
+  by_cases hg : (enterTx .repaired s && s.connected && !s.cutoff) = true
+  · simp only [hg, ↓reduceIte]
+    by_cases he : s.txbs.isEmpty = true
+    · have hbb : s.txbs = [] := by simpa using he
+      simp only [he, ↓reduceIte]
+      obtain ⟨i1, i2, _, i4, _⟩ := cliTxLoop_drains K s.txPkts env s hbb hc hx henv (by omega) hK
+      exact ⟨i1, i2, by rw [i4, hbb]; simp⟩
+    · simp only [he, Bool.false_eq_true, ↓reduceIte]
+      cases env with
+      | nil => simp at hlen
+      | cons r env' =>
+        obtain ⟨k, rfl, hk⟩ := henv r (by simp)
+        simp only [nextSend]
+        rw [cliSendTxbs_acc_full k s (by omega)]
+        simp only
+        obtain ⟨i1, i2, _, i4, _⟩ := cliTxLoop_drains K s.txPkts env'
+          { s with cutoff := s.cutoff || false, wire := s.wire ++ s.txbs, txbs := [] } rfl hc (by simp [hx])
+          (fun r hr => henv r (List.mem_cons_of_mem _ hr)) (by simp at hlen; omega) hK
+        exact ⟨i1, i2, by rw [i4]⟩
+  · -- the guard is false only when nothing is pending
+    simp only [hg]
+    simp only [enterTx, hc, hx, Bool.not_false, Bool.and_true, Bool.or_eq_true, Bool.not_eq_true',
+      not_or, Bool.not_eq_false] at hg
+    have h1 : s.txbs = [] := by simpa using hg.1
+    have h2 : s.txPkts = [] := by simpa using hg.2
+    simp [h1, h2, flat]
+
+
+
+/-! ### server stack -/
+
+theorem bytesOf_nil (ca : Nat) : bytesOf ca [] = [] := rfl
+
+theorem bytesOf_append (ca : Nat) (a b : List (Bytes × Nat)) :
+    bytesOf ca (a ++ b) = bytesOf ca a ++ bytesOf ca b := by
+  simp [bytesOf]
+
+theorem bytesOf_cons_eq (ca : Nat) (d : Bytes) (l : List (Bytes × Nat)) :
+    bytesOf ca ((d, ca) :: l) = d ++ bytesOf ca l := by
+  simp [bytesOf]
+
+theorem bytesOf_cons_ne (ca c : Nat) (d : Bytes) (l : List (Bytes × Nat)) (h : c ≠ ca) :
+    bytesOf ca ((d, c) :: l) = bytesOf ca l := by
+  simp [bytesOf, h]
+
+/-- per connection: accepted by the socket ++ waiting in `.txes` ++ waiting in the stack's queue `q`
+is what was handed to `transmit` for it -/
+def IxTx (q : List (Bytes × Nat)) (ix : Ix) : Prop :=
+  ix.wire ++ flat ix.txes ++ bytesOf ix.ca q = ix.queued
+
+/-- per connection: packets received from it ++ its buffer is what its socket delivered -/
+def IxRx (rx : List (Bytes × Nat)) (ix : Ix) : Prop :=
+  bytesOf ix.ca rx ++ ix.rxbs = ix.recvd
+
+/-- a transmit-side step of one connection -/
+def TxStep (ix ix' : Ix) : Prop :=
+  ix'.ca = ix.ca ∧ ix'.queued = ix.queued ∧ ix'.recvd = ix.recvd ∧ ix'.rxbs = ix.rxbs ∧
+  ix'.wire ++ flat ix'.txes = ix.wire ++ flat ix.txes
+
+/-- a receive-side step of one connection -/
+def RxStep (ix ix' : Ix) : Prop :=
+  ix'.ca = ix.ca ∧ ix'.queued = ix.queued ∧ ix'.wire = ix.wire ∧ ix'.txes = ix.txes ∧
+  ∃ δ, ix'.rxbs = ix.rxbs ++ δ ∧ ix'.recvd = ix.recvd ++ δ
+
+theorem TxStep.keeps {q rx} {ix ix' : Ix} (h : TxStep ix ix') (h1 : IxTx q ix ∧ IxRx rx ix) :
+    IxTx q ix' ∧ IxRx rx ix' := by
+  obtain ⟨a, b, c, d, e⟩ := h
+  unfold IxTx IxRx at *
+  rw [a, b, c, d, e]
+  exact h1
+
+theorem RxStep.keeps {q rx} {ix ix' : Ix} (h : RxStep ix ix') (h1 : IxTx q ix ∧ IxRx rx ix) :
+    IxTx q ix' ∧ IxRx rx ix' := by
+  obtain ⟨a, b, c, d, δ, e, f⟩ := h
+  unfold IxTx IxRx at *
+  rw [a, b, c, d, e, f]
+  refine ⟨h1.1, ?_⟩
+  rw [← List.append_assoc, h1.2]
+
+theorem hasIx_false {s : Srv} {ca : Nat} (h : hasIx s ca = false) : ∀ ix ∈ s.ixes, ix.ca ≠ ca := by
+  intro ix hix hc
+  have : hasIx s ca = true := by
+    unfold hasIx
+    rw [List.any_eq_true]
+    exact ⟨ix, hix, by simp [hc]⟩
+  rw [this] at h; cases h
+
+/-- `Stack.serviceTxPkts` of the repaired server stack keeps the per-connection invariants — also when
+it stops with `ValueError` at a packet whose address is not connected -/
+theorem srvTxLoop_spec (q : List (Bytes × Nat)) : ∀ (s : Srv) (rx : List (Bytes × Nat)),
+    (∀ ix ∈ s.ixes, IxTx q ix ∧ IxRx rx ix) →
+    (∀ ix ∈ (srvTxLoop .repaired q s).1.ixes, IxTx (srvTxLoop .repaired q s).1.txPkts ix ∧ IxRx rx ix) ∧
+    (srvTxLoop .repaired q s).1.ixes.map (·.ca) = s.ixes.map (·.ca) ∧
+    (srvTxLoop .repaired q s).1.rxPkts = s.rxPkts ∧ (srvTxLoop .repaired q s).1.opened = s.opened := by
+  induction q with
+  | nil => intro s rx h; simpa [srvTxLoop] using h
+  | cons p rest ih =>
+    intro s rx h
+    obtain ⟨d, ca⟩ := p
+    unfold srvTxLoop
+    by_cases ho : s.opened = true
+    · rw [if_pos ho]
+      simp only []
+      by_cases hi : hasIx s ca = true
+      · rw [if_pos hi]
+        have h' : ∀ ix ∈ (updIx s ca (fun ix => { ix with txes := ix.txes ++ [d] })).ixes,
+            IxTx rest ix ∧ IxRx rx ix := by
+          intro ix1 hix1
+          simp only [updIx, List.mem_map] at hix1
+          obtain ⟨ix, hix, rfl⟩ := hix1
+          obtain ⟨t, r⟩ := h ix hix
+          by_cases hc : (ix.ca == ca) = true
+          · simp only [hc, if_true]
+            have hca : ix.ca = ca := by simpa using hc
+            refine ⟨?_, r⟩
+            unfold IxTx at t ⊢
+            simp only
+            rw [← t, hca, bytesOf_cons_eq]
+            simp [flat, List.append_assoc]
+          · simp only [hc, Bool.false_eq_true, ↓reduceIte]
+            have hca : ca ≠ ix.ca := by intro e; exact hc (by simp [e])
+            refine ⟨?_, r⟩
+            unfold IxTx at t ⊢
+            rw [← t, bytesOf_cons_ne _ _ _ _ hca]
+        obtain ⟨i1, i2, i3, i4⟩ := ih (updIx s ca (fun ix => { ix with txes := ix.txes ++ [d] })) rx h'
+        refine ⟨i1, ?_, i3, i4⟩
+        rw [i2]
+        simp only [updIx, List.map_map]
+        apply List.map_congr_left
+        intro ix _
+        simp only [Function.comp]
+        split <;> rfl
+      · have hi' : hasIx s ca = false := by simpa using hi
+        rw [if_neg hi]
+        refine ⟨?_, rfl, rfl, rfl⟩
+        intro ix hix
+        obtain ⟨t, r⟩ := h ix hix
+        refine ⟨?_, r⟩
+        unfold IxTx at t ⊢
+        simp only
+        rw [← t, bytesOf_cons_ne _ _ _ _ (fun e => hasIx_false hi' ix hix e.symm)]
+    · rw [if_neg ho]
+      exact ⟨h, rfl, rfl, rfl⟩
+
+theorem scriptFor_noFail (ca : Nat) (sc : List (Nat × List SendRes))
+    (h : sc.all (fun p => p.2.all SendRes.noFail) = true) : (scriptFor ca sc).all SendRes.noFail = true := by
+  induction sc with
+  | nil => rfl
+  | cons p rest ih =>
+    obtain ⟨c, l⟩ := p
+    simp only [List.all_cons, Bool.and_eq_true] at h
+    unfold scriptFor
+    split
+    · exact h.1
+    · exact ih h.2
+
+/-- `Incomer.serviceTxes` under a script without non-transient errors -/
+theorem ixTxLoop_spec (txes : List Bytes) : ∀ (env : List SendRes) (ix : Ix),
+    env.all SendRes.noFail = true →
+    (ixTxLoop txes env ix).2 = false ∧
+    (ixTxLoop txes env ix).1.wire ++ flat (ixTxLoop txes env ix).1.txes = ix.wire ++ flat txes ∧
+    (ixTxLoop txes env ix).1.ca = ix.ca ∧ (ixTxLoop txes env ix).1.queued = ix.queued ∧
+    (ixTxLoop txes env ix).1.recvd = ix.recvd ∧ (ixTxLoop txes env ix).1.rxbs = ix.rxbs := by
+  induction txes with
+  | nil => intro env ix _; simp [ixTxLoop, flat]
+  | cons d rest ih =>
+    intro env ix hnf
+    unfold ixTxLoop
+    by_cases hc : (!ix.cutoff) = true
+    · simp only [hc, if_true]
+      have hr : (nextSend env).1.noFail = true ∧ (nextSend env).2.all SendRes.noFail = true := by
+        cases env with
+        | nil => exact ⟨rfl, rfl⟩
+        | cons r e => simp only [List.all_cons, Bool.and_eq_true] at hnf; exact hnf
+      generalize nextSend env = ne at hr
+      obtain ⟨r, env'⟩ := ne
+      simp only at hr ⊢
+      cases r with
+      | fail => simp [SendRes.noFail] at hr
+      | acc k =>
+        simp only [tSend, Bool.false_eq_true, if_false]
+        by_cases hlt : min k d.length < d.length
+        · simp only [hlt, ↓reduceIte]
+          refine ⟨by simp, ?_, by simp, by simp, by simp, by simp⟩
+          simp only [flat, List.flatten_cons, List.append_assoc]
+          rw [← List.append_assoc (List.take _ _), List.take_append_drop]
+        · simp only [hlt, ↓reduceIte]
+          have hm : min k d.length = d.length := by omega
+          obtain ⟨i1, i2, i3, i4, i5, i6⟩ := ih env'
+            { ix with cutoff := ix.cutoff || false, wire := ix.wire ++ List.take (min k d.length) d } hr.2
+          refine ⟨i1, ?_, i3, i4, i5, i6⟩
+          rw [i2]; simp [hm, flat, List.append_assoc]
+      | wouldBlock =>
+        simp only [tSend, Bool.false_eq_true, if_false]
+        by_cases hlt : 0 < d.length
+        · simp only [hlt, ↓reduceIte]
+          simp [flat]
+        · simp only [hlt, ↓reduceIte]
+          have hd : d = [] := by cases d <;> simp_all
+          obtain ⟨i1, i2, i3, i4, i5, i6⟩ := ih env'
+            { ix with cutoff := ix.cutoff || false, wire := ix.wire ++ List.take 0 d } hr.2
+          refine ⟨i1, ?_, i3, i4, i5, i6⟩
+          rw [i2]; simp [hd, flat]
+      | lost =>
+        simp only [tSend, Bool.false_eq_true, if_false]
+        by_cases hlt : 0 < d.length
+        · simp only [hlt, ↓reduceIte]
+          simp [flat]
+        · simp only [hlt, ↓reduceIte]
+          have hd : d = [] := by cases d <;> simp_all
+          obtain ⟨i1, i2, i3, i4, i5, i6⟩ := ih env'
+            { ix with cutoff := ix.cutoff || true, wire := ix.wire ++ List.take 0 d } hr.2
+          refine ⟨i1, ?_, i3, i4, i5, i6⟩
+          rw [i2]; simp [hd, flat]
+    · simp only [hc]
+      simp [flat]
+
+theorem srvTxesAll_spec (scripts : List (Nat × List SendRes))
+    (hnf : scripts.all (fun p => p.2.all SendRes.noFail) = true) : ∀ (ixes : List Ix),
+    (srvTxesAll scripts ixes).2 = false ∧
+    (srvTxesAll scripts ixes).1.map (·.ca) = ixes.map (·.ca) ∧
+    ∀ ix' ∈ (srvTxesAll scripts ixes).1, ∃ ix ∈ ixes, TxStep ix ix' := by
+  intro ixes
+  induction ixes with
+  | nil => simp [srvTxesAll]
+  | cons ix rest ih =>
+    obtain ⟨j1, j2, j3, j4, j5, j6⟩ := ixTxLoop_spec ix.txes (scriptFor ix.ca scripts) ix (scriptFor_noFail _ _ hnf)
+    obtain ⟨i1, i2, i3⟩ := ih
+    unfold srvTxesAll
+    simp only [j1, Bool.false_eq_true, if_false]
+    refine ⟨i1, by simp [i2, j3], ?_⟩
+    intro ix' hix'
+    rcases List.mem_cons.mp hix' with rfl | h
+    · exact ⟨ix, by simp, j3, j4, j5, j6, j2⟩
+    · obtain ⟨ix0, h0, hs⟩ := i3 ix' h
+      exact ⟨ix0, List.mem_cons_of_mem _ h0, hs⟩
+
+theorem ixRxLoop_spec (env : List RecvRes) : ∀ (ix : Ix), RxStep ix (ixRxLoop env ix).1 := by
+  induction env with
+  | nil => intro ix; exact ⟨rfl, rfl, rfl, rfl, [], by simp [ixRxLoop], by simp [ixRxLoop]⟩
+  | cons r env ih =>
+    intro ix
+    unfold ixRxLoop
+    by_cases hc : (!ix.cutoff) = true
+    · simp only [hc, if_true]
+      cases r with
+      | data b =>
+        cases b with
+        | nil => exact ⟨rfl, rfl, rfl, rfl, [], by simp, by simp⟩
+        | cons x xs =>
+          simp only
+          obtain ⟨a, b, c, d, δ, e, f⟩ := ih { ix with rxbs := ix.rxbs ++ (x :: xs), recvd := ix.recvd ++ (x :: xs) }
+          exact ⟨a, b, c, d, (x :: xs) ++ δ, by rw [e]; simp, by rw [f]; simp⟩
+      | wouldBlock => exact ⟨rfl, rfl, rfl, rfl, [], by simp, by simp⟩
+      | lost => exact ⟨rfl, rfl, rfl, rfl, [], by simp, by simp⟩
+      | fail => exact ⟨rfl, rfl, rfl, rfl, [], by simp, by simp⟩
+    · simp only [hc]
+      exact ⟨rfl, rfl, rfl, rfl, [], by simp, by simp⟩
+
+theorem srvRxAll_spec (scripts : List (Nat × List RecvRes)) : ∀ (ixes : List Ix),
+    (srvRxAll scripts ixes).1.map (·.ca) = ixes.map (·.ca) ∧
+    ∀ ix' ∈ (srvRxAll scripts ixes).1, ∃ ix ∈ ixes, RxStep ix ix' := by
+  intro ixes
+  induction ixes with
+  | nil => simp [srvRxAll]
+  | cons ix rest ih =>
+    have j := ixRxLoop_spec (scriptFor ix.ca scripts) ix
+    obtain ⟨i2, i3⟩ := ih
+    unfold srvRxAll
+    generalize ixRxLoop (scriptFor ix.ca scripts) ix = res at j
+    obtain ⟨ix1, raised⟩ := res
+    simp only at j ⊢
+    cases raised with
+    | true =>
+      simp only [if_true]
+      refine ⟨by simp [j.1], ?_⟩
+      intro ix' hix'
+      rcases List.mem_cons.mp hix' with rfl | h
+      · exact ⟨ix, by simp, j⟩
+      · exact ⟨ix', List.mem_cons_of_mem _ h, rfl, rfl, rfl, rfl, [], by simp, by simp⟩
+    | false =>
+      simp only [Bool.false_eq_true, if_false]
+      refine ⟨by simp [i2, j.1], ?_⟩
+      intro ix' hix'
+      rcases List.mem_cons.mp hix' with rfl | h
+      · exact ⟨ix, by simp, j⟩
+      · obtain ⟨ix0, h0, hs⟩ := i3 ix' h
+        exact ⟨ix0, List.mem_cons_of_mem _ h0, hs⟩
+
+theorem ixParseLoop_spec (ps : Parser) (fuel : Nat) : ∀ (buf : Bytes) (acc : List Bytes),
+    flat (ixParseLoop ps fuel buf acc).2 ++ (ixParseLoop ps fuel buf acc).1 = flat acc ++ buf := by
+  induction fuel with
+  | zero => intro buf acc; rfl
+  | succ n ih =>
+    intro buf acc
+    unfold ixParseLoop
+    split
+    · rfl
+    · split
+      · rfl
+      · split
+        · rfl
+        · rw [ih]; simp [flat, List.append_assoc]
+
+
+
+theorem bytesOf_map_same (ca : Nat) (pkts : List Bytes) :
+    bytesOf ca (pkts.map (fun p => (p, ca))) = flat pkts := by
+  induction pkts with
+  | nil => rfl
+  | cons p r ih => simp only [List.map_cons, bytesOf_cons_eq, ih, flat, List.flatten_cons]
+
+theorem bytesOf_map_other (ca c : Nat) (pkts : List Bytes) (h : c ≠ ca) :
+    bytesOf ca (pkts.map (fun p => (p, c))) = [] := by
+  induction pkts with
+  | nil => rfl
+  | cons p r ih => simp only [List.map_cons, bytesOf_cons_ne _ _ _ _ h, ih]
+
+/-- `TcpServerStack.serviceReceives`: every connection's buffer is split into packets ++ rest, the
+packets are tagged with its address, other connections are not affected -/
+theorem srvParseAll_spec (ps : Parser) : ∀ (ixes : List Ix), (ixes.map (·.ca)).Nodup →
+    (srvParseAll ps ixes).1.map (·.ca) = ixes.map (·.ca) ∧
+    (∀ c, c ∉ ixes.map (·.ca) → bytesOf c (srvParseAll ps ixes).2 = []) ∧
+    ∀ ix' ∈ (srvParseAll ps ixes).1, ∃ ix ∈ ixes,
+      ix'.ca = ix.ca ∧ ix'.queued = ix.queued ∧ ix'.wire = ix.wire ∧ ix'.txes = ix.txes ∧ ix'.recvd = ix.recvd ∧
+      bytesOf ix.ca (srvParseAll ps ixes).2 ++ ix'.rxbs = ix.rxbs := by
+  intro ixes
+  induction ixes with
+  | nil => intro _; simp [srvParseAll, bytesOf]
+  | cons ix rest ih =>
+    intro hnd
+    simp only [List.map_cons, List.nodup_cons] at hnd
+    obtain ⟨i1, i2, i3⟩ := ih hnd.2
+    have hp := ixParseLoop_spec ps ix.rxbs.length ix.rxbs []
+    unfold srvParseAll
+    generalize ixParseLoop ps ix.rxbs.length ix.rxbs [] = res at hp
+    obtain ⟨buf, pkts⟩ := res
+    simp only at hp ⊢
+    refine ⟨by simp [i1], ?_, ?_⟩
+    · intro c hc
+      simp only [List.map_cons, List.mem_cons, not_or] at hc
+      rw [bytesOf_append, bytesOf_map_other _ _ _ (fun e => hc.1 e.symm), i2 c hc.2]; rfl
+    · intro ix' hix'
+      rcases List.mem_cons.mp hix' with rfl | h
+      · refine ⟨ix, by simp, rfl, rfl, rfl, rfl, rfl, ?_⟩
+        rw [bytesOf_append, bytesOf_map_same, i2 ix.ca hnd.1]
+        simpa [flat] using hp
+      · obtain ⟨ix0, h0, a, b, c, d, e, f⟩ := i3 ix' h
+        refine ⟨ix0, List.mem_cons_of_mem _ h0, a, b, c, d, e, ?_⟩
+        have hne : ix.ca ≠ ix0.ca := by
+          intro e; exact hnd.1 (e ▸ List.mem_map_of_mem (f := (·.ca)) h0)
+        rw [bytesOf_append, bytesOf_map_other _ _ _ hne]
+        exact f
+
+/-- **the invariant of the server stack**: for every connection, bytes accepted by its socket ++
+`.txes` ++ its packets on `.txPkts` = bytes handed to `transmit` for it, and its received packets ++
+its buffer = bytes its socket delivered; connection addresses are distinct -/
+def SrvInv (s : Srv) : Prop :=
+  (∀ ix ∈ s.ixes, IxTx s.txPkts ix ∧ IxRx s.rxPkts ix) ∧ (s.ixes.map (·.ca)).Nodup
+
+theorem SrvInv_init : SrvInv Srv.init := by simp [SrvInv, Srv.init]
+
+theorem filter_map_nodup {l : List Ix} (p : Ix → Bool) (h : (l.map (·.ca)).Nodup) :
+    ((l.filter p).map (·.ca)).Nodup :=
+  h.sublist ((List.filter_sublist (l := l) (p := p)).map _)
+
+theorem sstep_inv (ps : Parser) (s : Srv) (op : SOp) (hinv : SrvInv s) (hnf : op.noFail = true) :
+    SrvInv (sstep .repaired ps s op).1 := by
+  obtain ⟨hix, hnd⟩ := hinv
+  cases op with
+  | accept ca =>
+    simp only [sstep]
+    by_cases hh : hasIx s ca = true
+    · rw [if_pos hh]; exact ⟨hix, hnd⟩
+    · rw [if_neg hh]
+      have hh' : hasIx s ca = false := by simpa using hh
+      simp only [serviceConnectsLoop, dropCutoff]
+      refine ⟨?_, ?_⟩
+      · intro ix hm
+        simp only [List.mem_filter, List.mem_append, List.mem_singleton] at hm
+        rcases hm.1 with h | rfl
+        · exact hix ix h
+        · simp [IxTx, IxRx, flat]
+      · apply filter_map_nodup
+        simp only [List.map_append, List.map_cons, List.map_nil]
+        rw [List.nodup_append]
+        refine ⟨hnd, by simp, ?_⟩
+        intro a ha b hb
+        simp only [List.mem_singleton] at hb
+        subst hb
+        obtain ⟨ix, hixm, rfl⟩ := List.mem_map.mp ha
+        exact hasIx_false hh' ix hixm
+  | serviceConnects =>
+    simp only [sstep, serviceConnectsLoop, dropCutoff]
+    exact ⟨fun ix hm => hix ix (List.mem_filter.mp hm).1, filter_map_nodup _ hnd⟩
+  | transmit d ca =>
+    simp only [sstep, updIx]
+    refine ⟨?_, ?_⟩
+    · intro ix1 hm
+      obtain ⟨ix, hm', rfl⟩ := List.mem_map.mp hm
+      obtain ⟨t, r⟩ := hix ix hm'
+      by_cases hc : (ix.ca == ca) = true
+      · have hca : ix.ca = ca := by simpa using hc
+        simp only [hc, if_true]
+        refine ⟨?_, r⟩
+        unfold IxTx at t ⊢
+        simp only
+        rw [bytesOf_append, ← t, hca, bytesOf_cons_eq]
+        simp [bytesOf_nil, List.append_assoc]
+      · simp only [hc, Bool.false_eq_true, ↓reduceIte]
+        refine ⟨?_, r⟩
+        have hca : ca ≠ ix.ca := by intro e; exact hc (by simp [e])
+        unfold IxTx at t ⊢
+        rw [bytesOf_append, bytesOf_cons_ne _ _ _ _ hca, bytesOf_nil, List.append_nil]
+        exact t
+    · rw [List.map_map]
+      have : (List.map ((fun x => x.ca) ∘ fun ix => if (ix.ca == ca) = true then
+          { ix with queued := ix.queued ++ d } else ix) s.ixes) = s.ixes.map (·.ca) := by
+        apply List.map_congr_left
+        intro ix _
+        simp only [Function.comp]
+        split <;> rfl
+      rw [this]; exact hnd
+  | serviceTxPkts =>
+    simp only [sstep]
+    obtain ⟨i1, i2, i3, _⟩ := srvTxLoop_spec s.txPkts s s.rxPkts hix
+    refine ⟨?_, by rw [i2]; exact hnd⟩
+    intro ix hm
+    rw [i3]; exact i1 ix hm
+  | serviceTxesAllIx scripts =>
+    simp only [SOp.noFail] at hnf
+    obtain ⟨_, i2, i3⟩ := srvTxesAll_spec scripts hnf s.ixes
+    simp only [sstep]
+    refine ⟨?_, by rw [i2]; exact hnd⟩
+    intro ix' hm
+    obtain ⟨ix, hm0, hs⟩ := i3 ix' hm
+    exact hs.keeps (hix ix hm0)
+  | serviceReceivesAllIx scripts =>
+    obtain ⟨i2, i3⟩ := srvRxAll_spec scripts s.ixes
+    simp only [sstep]
+    refine ⟨?_, by rw [i2]; exact hnd⟩
+    intro ix' hm
+    obtain ⟨ix, hm0, hs⟩ := i3 ix' hm
+    exact hs.keeps (hix ix hm0)
+  | serviceReceives =>
+    simp only [sstep]
+    by_cases ho : s.opened = true
+    · rw [if_pos ho]
+      obtain ⟨i1, _, i3⟩ := srvParseAll_spec ps s.ixes hnd
+      simp only
+      refine ⟨?_, by rw [i1]; exact hnd⟩
+      intro ix' hm
+      obtain ⟨ix, hm0, a, b, c, d, e, f⟩ := i3 ix' hm
+      obtain ⟨t, r⟩ := hix ix hm0
+      unfold IxTx IxRx at *
+      refine ⟨by rw [a, b, c, d]; exact t, ?_⟩
+      rw [a, e, bytesOf_append, List.append_assoc, f]
+      exact r
+    · rw [if_neg ho]; exact ⟨hix, hnd⟩
+
+theorem srun_inv (ps : Parser) (ops : List SOp) : ∀ (s : Srv), SrvInv s → ops.all SOp.noFail = true →
+    SrvInv (srun .repaired ps s ops).1 := by
+  induction ops with
+  | nil => intro s h _; exact h
+  | cons op ops ih =>
+    intro s h hnf
+    simp only [List.all_cons, Bool.and_eq_true] at hnf
+    exact ih _ (sstep_inv ps s op h hnf.1) hnf.2
+
+/-! ### client histories -/
+
+def CliInv (s : Cli) : Prop := txTotal s = s.queued ∧ rxTotal s = s.recvd
+
+theorem cstep_inv (v : Variant) (ps : Parser) (s : Cli) (op : COp) (h : CliInv s) :
+    CliInv (cstep v ps s op).1 := by
+  obtain ⟨ht, hr⟩ := h
+  cases op with
+  | connect =>
+    simp only [cstep]
+    split
+    · exact ⟨ht, hr⟩
+    · exact ⟨ht, hr⟩
+  | transmit d =>
+    simp only [cstep, CliInv, txTotal, rxTotal] at *
+    refine ⟨?_, hr⟩
+    rw [← ht]; simp [flat, List.append_assoc]
+  | serviceTxPkts env =>
+    obtain ⟨h1, h2⟩ := cliServiceTxPkts_spec v s env
+    simp only [cstep, CliInv]
+    refine ⟨by rw [h1, h2.2.2.2.1]; exact ht, ?_⟩
+    simp only [rxTotal] at hr ⊢
+    rw [h2.1, h2.2.1, h2.2.2.1]; exact hr
+  | serviceTxPktsOnce env =>
+    obtain ⟨h1, h2⟩ := cliServiceTxPktsOnce_spec v s env
+    simp only [cstep, CliInv]
+    refine ⟨by rw [h1, h2.2.2.2.1]; exact ht, ?_⟩
+    simp only [rxTotal] at hr ⊢
+    rw [h2.1, h2.2.1, h2.2.2.1]; exact hr
+  | serviceReceives env =>
+    simp only [cstep, CliInv, cliServiceReceives]
+    split
+    · obtain ⟨h1, h2⟩ := cliRxLoop_spec ps env false s hr
+      refine ⟨?_, h1⟩
+      simp only [txTotal] at ht ⊢
+      rw [h2.1, h2.2.1, h2.2.2.1, h2.2.2.2]; exact ht
+    · exact ⟨ht, hr⟩
+
+theorem crun_inv (v : Variant) (ps : Parser) (ops : List COp) : ∀ (s : Cli), CliInv s →
+    CliInv (crun v ps s ops).1 := by
+  induction ops with
+  | nil => intro s h; exact h
+  | cons op ops ih => intro s h; exact ih _ (cstep_inv v ps s op h)
+
+/-! ### server: pending bytes drain when the sockets accept -/
+
+theorem ixTxLoop_drains (K : Nat) (txes : List Bytes) : ∀ (env : List SendRes) (ix : Ix),
+    ix.cutoff = false → (∀ r ∈ env, ∃ k, r = SendRes.acc k ∧ K ≤ k) → txes.length ≤ env.length →
+    (∀ d ∈ txes, d.length ≤ K) →
+    (ixTxLoop txes env ix).1.txes = [] ∧ (ixTxLoop txes env ix).1.wire = ix.wire ++ flat txes := by
+  induction txes with
+  | nil => intro env ix _ _ _ _; simp [ixTxLoop, flat]
+  | cons d rest ih =>
+    intro env ix hx henv hlen hK
+    cases env with
+    | nil => simp at hlen
+    | cons r env' =>
+      obtain ⟨k, rfl, hk⟩ := henv r (by simp)
+      have hd : d.length ≤ k := Nat.le_trans (hK d (by simp)) hk
+      have hm : min k d.length = d.length := by omega
+      have hnl : ¬ (d.length < d.length) := by omega
+      have hcond : (!ix.cutoff) = true := by simp [hx]
+      unfold ixTxLoop
+      rw [if_pos hcond]
+      simp only [nextSend, tSend, Bool.false_eq_true, if_false, hm, hnl, List.take_length]
+      obtain ⟨i1, i2⟩ := ih env' { ix with cutoff := ix.cutoff || false, wire := ix.wire ++ d } (by simp [hx])
+        (fun r hr => henv r (List.mem_cons_of_mem _ hr)) (by simpa using hlen)
+        (fun x hx' => hK x (List.mem_cons_of_mem _ hx'))
+      exact ⟨i1, by rw [i2]; simp [flat, List.append_assoc]⟩
+
+
+theorem hasIx_updIx (s : Srv) (ca c : Nat) (f : Ix → Ix) (hf : ∀ ix, (f ix).ca = ix.ca) :
+    hasIx (updIx s ca f) c = hasIx s c := by
+  simp only [hasIx, updIx, List.any_map]
+  congr 1
+  funext ix
+  simp only [Function.comp]
+  split
+  · rw [hf]
+  · rfl
+
+theorem ixParseLoop_whole (buf : Bytes) (acc : List Bytes) :
+    (ixParseLoop .whole buf.length buf acc).1 = [] := by
+  cases buf with
+  | nil => rfl
+  | cons x xs =>
+    simp only [List.length_cons]
+    unfold ixParseLoop
+    simp only [List.isEmpty_cons, Bool.false_eq_true, if_false, parse, List.length_cons]
+    have : ¬ (xs.length + 1 = 0) := by omega
+    rw [if_neg this]
+    have hd : List.drop (xs.length + 1) (x :: xs) = [] := by simp
+    rw [hd]
+    cases xs.length <;> simp [ixParseLoop]
+
+
 end Ioflo.StreamStack
